@@ -229,7 +229,7 @@ fn run_macroman(bytes: &[u32], chars: &[u32]) -> String {
     format!("b={};c={}", b.join(","), c.join(","))
 }
 
-fn run(input: &str) -> String {
+pub fn run(input: &str) -> String {
     let parts: Vec<&str> = input.split('|').collect();
     match parts.as_slice() {
         ["S", h, p] => run_subtable(&unhex(h), &parse_list(p)),
@@ -900,7 +900,7 @@ fn gen_m(rng: &mut Rng) -> String {
     format!("M|{}|{}", join(&b), join(&c))
 }
 
-fn gen(rng: &mut Rng) -> String {
+pub fn gen(rng: &mut Rng) -> String {
     match rng.below(20) {
         0 => gen_m(rng),
         1..=6 => gen_f(rng),
